@@ -13,7 +13,7 @@ from ..config_graph import ConfigGraph
 from ..core import AnalysisError, Loc, Report, Source, norm
 from ..handlers import HandlerFacts, concrete_handlers, stores
 from ..inifront import load_all
-from ..pyfront import ClassInfo, Program, body_without_docstring, dotted, param_names, self_attr
+from ..pyfront import ClassInfo, Program, body_without_docstring, const_value, dotted, param_names, self_attr
 from ..normalize import canon
 from ..resolve import Resolver
 from ..selftest import Edit
@@ -60,7 +60,7 @@ def _getstate_tables(prog: Program, ci: ClassInfo, rep: Report) -> None:
         rep.ob("R19.1-pair", False, loc, f"{ci.name}: __getstate__/__setstate__",
                "a class that customises pickling must define both directions")
         return
-    removed = _removed_keys(gs)
+    removed = _removed_keys(gs, consts=lambda e: const_value(prog, ci, e))
     added = {t.slice.value for n in ast.walk(gs) if isinstance(n, ast.Assign) for t in n.targets
              if isinstance(t, ast.Subscript) and isinstance(t.slice, ast.Constant) and isinstance(t.value, ast.Name)}
     recreated = set()
@@ -75,7 +75,7 @@ def _getstate_tables(prog: Program, ci: ClassInfo, rep: Report) -> None:
     for b in prog.mro(ci)[1:]:
         bg, bs = _cm(prog, b, "__getstate__"), _cm(prog, b, "__setstate__")
         if bg is not None:
-            inh_removed |= _removed_keys(bg)
+            inh_removed |= _removed_keys(bg, consts=lambda e, b=b: const_value(prog, b, e))
         if bs is not None:
             inh_recreated |= {self_attr(t) for n in ast.walk(bs) if isinstance(n, ast.Assign) for t in n.targets if self_attr(t)}
     calls_super_s = any(isinstance(n, ast.Call) and isinstance(n.func, ast.Attribute) and n.func.attr == "__setstate__"
@@ -86,9 +86,10 @@ def _getstate_tables(prog: Program, ci: ClassInfo, rep: Report) -> None:
            f"attributes {sorted(missing)} are removed from the pickled state but not re-created on unpickling")
     # keys consumed
     read = {n.slice.value for n in ast.walk(ss) if isinstance(n, ast.Subscript) and isinstance(n.slice, ast.Constant)
-            and isinstance(n.value, ast.Name) and isinstance(n.ctx, ast.Load)}
+            and isinstance(n.slice.value, str) and isinstance(n.value, ast.Name) and isinstance(n.ctx, ast.Load)}
     read |= {n.args[0].value for n in ast.walk(ss) if isinstance(n, ast.Call) and isinstance(n.func, ast.Attribute)
-             and n.func.attr in ("pop", "get") and isinstance(n.func.value, ast.Name) and n.args and isinstance(n.args[0], ast.Constant)}
+             and n.func.attr in ("pop", "get") and isinstance(n.func.value, ast.Name) and n.args and isinstance(n.args[0], ast.Constant)
+             and isinstance(n.args[0].value, str)}
     rep.ob("R19.1-added-are-consumed", added <= read, Loc(ci.file, ss.lineno, f"{ci.name}.__setstate__"),
            f"{ci.name}: extra keys {sorted(added)} / read {sorted(read)}",
            f"extra keys {sorted(added - read)} are put into the pickled state but never read back")
@@ -158,7 +159,7 @@ def check_cdata(prog: Program, rep: Report) -> None:
         gs, ss = _cm(prog, ci, "__getstate__"), _cm(prog, ci, "__setstate__")
         removed = set()
         if gs is not None:
-            removed = _removed_keys(gs)
+            removed = _removed_keys(gs, consts=lambda e: const_value(prog, ci, e))
         rebuilt = set()
         if ss is not None:
             rebuilt = {self_attr(t) for x in ast.walk(ss) if isinstance(x, ast.Assign) for t in x.targets if self_attr(t)}
